@@ -9,9 +9,12 @@ contract  requires Inv(old)  ensures Inv(new)  on raise: heap == old(heap)):
     ensures   Inv(post-state)                     -- on normal AND exceptional exit
     on raise  snap(root) == old(snap(root)) for every root, same set of roots, nothing new reachable
 
-Inv (written from the statements of C03/C04, reads private fields only):
-    harness.wellformed(root) == [] for every root reachable from the pool,
-    harness.attached_ok(obj) == [] for every pool object,
+Inv (written from the statements of C03/C04, reads private fields only), evaluated on the POPULATION of the history:
+the pool, every object an operation returned and every object found in any child list after any earlier step (copies
+made by merge / link resolution / clone) - an object stays in the population when it is dropped from its list, so
+"reports a parent => listed exactly once in that parent's list" is checked on objects no root leads to any more:
+    harness.wellformed(root) == [] for every root reachable from the population,
+    harness.attached_ok(obj) == [] for every object of the population,
     obj.document is the root of obj's parent chain when that root is a Document,
     get_path / document / itersections / iterproperties terminate.
 
@@ -280,7 +283,8 @@ def all_ops():
             ops.append(('set_link', a, t))          # incl. a link to itself; resolved at once when a has a parent
         ops.append(('merge_link', a))               # merge() without argument: resolve the recorded link
         for b in SECS:
-            ops.append(('unmerge', a, b))
+            if a != b or a == 'S0':                 # unmerge of itself: once
+                ops.append(('unmerge', a, b))
     for c in CONTS:
         ops.append(('clean', c))
     ops.append(('finalize', 'D'))
@@ -384,9 +388,15 @@ def run_op(op, env):
 def replay(history):
     """Fresh pool + replay of a history; returns env (no checks)."""
     env = fresh_env()
-    for op in history:
-        run_op(op, env)
-        harvest(env)
+    with h.quiet():
+        for op in history:
+            try:
+                apply_op(op, env)
+            except Timeout:
+                raise
+            except Exception:       # noqa
+                pass
+            harvest(env)
     return env
 
 
@@ -552,14 +562,15 @@ def invariant(env):
     ever seen that reports a parent must be listed exactly once in that parent's child list (and in no list of any
     other known container), whether or not it can still be reached from a root; its document must be the root of
     its parent chain; the queries must terminate on it."""
-    return invariant_of(population(env))
+    return invariant_of(population(env), traverse=set(id(o) for o in pool_objs(env)))
 
 
-def invariant_of(pool, queries='all'):
+def invariant_of(pool, queries='all', traverse=None):
     """Inv over the object graph reachable from the given Documents / Sections / Properties.
     queries: 'all' - traversal queries are run from every container of the pool; 'roots' - from the roots only
     (a traversal from a root visits every subtree; the O(n^2) re-traversal of each subtree is left out);
-    None - structure only."""
+    None - structure only.  traverse: ids of the containers the traversal queries are started from besides the roots
+    (default: every container); path and document queries are always run on every object."""
     problems = []
     # parent chains must be finite
     for o in pool:
@@ -597,7 +608,8 @@ def invariant_of(pool, queries='all'):
                                             % (d, o, root))
                     o.get_path() if hasattr(o, 'get_path') else None
                     if not isinstance(o, BaseProperty) and \
-                            (queries == 'all' or getattr(o, '_parent', None) is None):
+                            ((queries == 'all' and (traverse is None or id(o) in traverse))
+                             or getattr(o, '_parent', None) is None):
                         n = 0
                         for _ in o.itersections():
                             n += 1
@@ -1316,7 +1328,13 @@ def run_histories(tier='quick', seed=0, plan=None, walks=None, max_evaluations=N
              'to all operation sequences of length <= n from that configuration, histories reaching the same '
              'canonical state being merged; each start configuration is itself a history from fresh detached '
              'objects; one evaluation = one contract check {Inv} op {Inv; unchanged on raise} on a pre-state '
-             'rebuilt from fresh objects; distinct = (operation kind, pre-state feature, outcome)%s; plus the index '
+             'rebuilt from fresh objects; the operations include link assignment (to each pool Section, itself, nowhere, '
+             'None), merge() of a recorded link, unmerge, clean of every container, Document.finalize and parent assignment '
+             'of the oldest Section / Property the library made itself (copy by merge / link resolution / clone); Inv is '
+             'evaluated on the whole population of the history (pool, objects returned by operations, every object seen '
+             'in any child list after any step - kept after it is dropped from its list): reports a parent => listed '
+             'exactly once in that parent, document == root of the parent chain, queries terminate; on raise every root '
+             'of that population unchanged; distinct = (operation kind, pre-state feature, outcome)%s; plus the index '
              'sweep: reorder / insert / item assignment with every integer index from -2n-2 to 2n+2 (and 4 non-integers) '
              'on child lists of n = 0..%d Sections / Properties (of a Document, a Section in a document, a detached '
              'Section; built by append, parent=, extend, insert at the front, clone of the container, merge from a '
